@@ -87,6 +87,8 @@ func runC04(p *eng.Prog, r *eng.Report, tier string) {
 		}
 	}
 	c04Deadline(c)
+	c04ReadyNotAdoptedEarly(c, "C04.9")
+	c04CtxBetweenSteps(c, "C04.10")
 	c04NoPanic(c, neg)
 	// a fault that panics is not "failing closed": decoder API misuse that
 	// panics on a peer's stream error (C04.6)
@@ -430,4 +432,102 @@ func ctxDerived(f *eng.Fn, e ast.Expr, pt eng.Point, depth int) bool {
 		}
 	}
 	return false
+}
+
+// c04CtxBetweenSteps (C04.10): only a net.Conn is interrupted through its
+// deadline; on other transports the context must be looked at by the
+// negotiation loop itself. In negotiateSession the call of the Negotiator is
+// dominated, within the same iteration, by ctx.Err() == nil, and every state
+// update that follows the call is dominated, since the call, by a second
+// ctx.Err() == nil: a context that ended while the step ran yields an error,
+// not a ready session.
+func c04CtxBetweenSteps(c *cx, id string) {
+	f := c.fn(id, "", "negotiateSession")
+	if f == nil {
+		return
+	}
+	g := f.Graph()
+	var negCall *ast.CallExpr
+	for _, cl := range f.AllCalls() {
+		if t := f.Info().TypeOf(cl.Fun); t != nil && eng.TypeStr(t) == "xmpp.Negotiator" {
+			negCall = cl
+		}
+	}
+	if negCall == nil {
+		c.r.Unresolved(id, "call of the Negotiator in negotiateSession")
+		return
+	}
+	ncPt, _ := g.Where(negCall)
+	ctxOK := []string{"eq(context.Context.Err[p0](),nil)"}
+	// the loop that contains the call
+	var from eng.Point = g.Entry()
+	for p := g.Parent(negCall); p != nil; p = g.Parent(p) {
+		if fs, ok := p.(*ast.ForStmt); ok {
+			if body, _, _, okl := g.LoopPoints(fs); okl {
+				from = body
+			}
+			break
+		}
+	}
+	c.r.Check(id, f, "context consulted before the step", "G: in every iteration the Negotiator is called only after ctx.Err() == nil was established", negCall.Pos(), g.DominatedFrom(from, ncPt, ctxOK), "a cancelled context still starts the next negotiation step (component.NewSession with a cancelled context completes the handshake on a transport without deadlines)")
+	n := 0
+	for _, w := range f.FieldWrites("xmpp.Session.state") {
+		pt, _ := g.Where(w.Stmt)
+		if !g.Reachable(g.After(ncPt), pt, nil, nil) {
+			continue
+		}
+		n++
+		c.r.Check(id, f, "context consulted after the step", "G: the state bits of a step are applied only if ctx.Err() == nil was established after the step returned", w.Stmt.Pos(), g.DominatedFrom(g.After(ncPt), pt, ctxOK), "a context that ended while the step ran (cancelled during bind on a transport without deadlines) still produces a ready session and a nil error")
+	}
+	c.r.Floor(id, "state updates after the Negotiator call", n, 1)
+}
+
+// c04ReadyNotAdoptedEarly (C04.9): negotiateFeatures puts the bits of every
+// feature that succeeded into the session state at once (later features of
+// the same list test them), but not the Ready bit: whether the session is
+// ready is decided from the mask the step returns, when the step as a whole
+// has succeeded. Otherwise a voluntary feature that reports Ready followed by
+// a required feature that fails leaves a ready session next to the error.
+func c04ReadyNotAdoptedEarly(c *cx, id string) {
+	f := c.fn(id, "", "negotiateFeatures")
+	if f == nil {
+		return
+	}
+	g := f.Graph()
+	n := 0
+	for _, w := range f.FieldWrites("xmpp.Session.state") {
+		if w.RHS == nil {
+			continue
+		}
+		n++
+		pt, _ := g.Where(w.Stmt)
+		ok := false
+		if be, isBin := ast.Unparen(w.RHS).(*ast.BinaryExpr); isBin && be.Op == token.AND_NOT && strings.Contains(f.Norm(be.Y, &pt), "xmpp.Ready") {
+			ok = true
+		}
+		if !ok {
+			// or the mask was stripped unconditionally since the feature returned
+			root := rootLocal(f, w.RHS)
+			if root != nil {
+				strips := func(q eng.Point, nd ast.Node) bool {
+					as, isAs := nd.(*ast.AssignStmt)
+					if !isAs || len(as.Lhs) != 1 || rootLocal(f, as.Lhs[0]) != root {
+						return false
+					}
+					if as.Tok == token.AND_NOT_ASSIGN && strings.Contains(f.Norm(as.Rhs[0], &q), "xmpp.Ready") {
+						return true
+					}
+					return false
+				}
+				for _, cl := range f.Calls("field:xmpp.StreamFeature.Negotiate") {
+					cp, _ := g.Where(cl)
+					if g.Reachable(g.After(cp), pt, nil, nil) && g.MustPassBefore(g.After(cp), pt, strips, nil) {
+						ok = true
+					}
+				}
+			}
+		}
+		c.r.Check(id, f, "state bits adopted per feature exclude Ready", "K: the per-feature update of Session.state is `mask &^ Ready` (or the mask was stripped of Ready on every path): readiness is decided by negotiateSession from the step's result", w.Stmt.Pos(), ok, "the feature's own Ready bit goes into the session state before the rest of the list was negotiated: if a later feature of the list fails, NewSession returns an error and a session that reports Ready")
+	}
+	c.r.Floor(id, "per-feature state updates in negotiateFeatures", n, 1)
 }
